@@ -11,6 +11,12 @@ Three parts:
      functions the server runs per edit by variants that differ in layout only: k blank lines at the top, before a
      rule in the middle, at the end; every cached diagnostic at or below the insertion point must have moved by k,
      the others must not have changed;
+     round 3: the family "boundary rows" (something reportable on the FIRST and on the LAST row of the file: comment blocks
+     of every kind before the package clause, findings on the package row, on the last row with and without a final
+     newline) under the k-shift relation, and INPUT MODES: these batches and a sample of the other corpora are linted
+     through files on disk (directory walk / path list -> rules.InputFromPaths), rules.InputFromMap, rules.InputFromText
+     and standard input (the path "-", in a process of its own), for k = 0 and shifts: the reports of the modes must agree
+     and lie inside the text that was provided;
   3. proof gate for the theorems of Props/C07.v.
 """
 import json, os, re, threading
@@ -352,6 +358,14 @@ def lsp_shift_workspaces(ctx):
         'b/b.rego': 'package b\n\nimport data.a\n\nhelper(x) := x\n\nmembers contains m if some m in input.ms\n\n'
                     'flag if a.flag\n\nprint_it if {\n\tprint(2)\n}\n\ndup := 4\n\ndup := 4\n',
     }}, quick=ctx.quick()))
+    # boundary rows (round 3): something reportable on the FIRST row (a METADATA block detached from the package, annotation
+    # attributes without the METADATA header, an unknown attribute: the comment-block rules) and on the LAST row, with and
+    # without a final newline
+    wss.append(add_layout_edits(rng, {'name': 'fixed-boundary-rows', 'config': CONFIG_ALL, 'ks': LSP_KS, 'files': {
+        'a/a.rego': '# METADATA\n# title: a\n\npackage a\n\nimport data.b\n\nr if b.flag\n\nx = 1',
+        'b/b.rego': '# title: b\n# description: about b\npackage b\n\nimport data.a\n\nflag if a.r\n\ncamelCase := 2 # TODO: last row\n',
+        'c/c.rego': '# METADATA\n# titel: c\npackage c\n\ny = 2\n\n# TODO: the end\n\n# title: nothing follows',
+    }}, quick=ctx.quick()))
     return wss
 
 
@@ -428,12 +442,12 @@ def report_lsp_shift(ctx, shift):
 def run(ctx):
     h = vlib.build_harness(ctx, 'c07')
     env = dict(os.environ, VERIF_SEED=str(ctx.seed))
-    replay_modules = None
+    replay_modules = replay_opt = None
     rp = {}
     if ctx.replay:
         rp = json.load(open(ctx.replay))
         if rp.get('modules'):
-            replay_modules = rp['modules']
+            replay_modules, replay_opt = rp['modules'], rp.get('opt')
 
     # the corpus run (part 2) is a process tree of its own: it runs next to the helper evaluation and the overlay tests
     # of the language server (part 1 and the LSP scenarios), which are mostly compilation and single Lint calls
@@ -442,7 +456,7 @@ def run(ctx):
     if not (ctx.replay and replay_modules is None and rp.get('lsp_workspace')):
         def corpus_job():
             try:
-                corpus_box['summ'] = shared.run_corpus(ctx, h, 'C07', replay_modules)
+                corpus_box['summ'] = shared.run_corpus(ctx, h, 'C07', replay_modules, replay_opt)
             except BaseException as e:      # re-raised in the main thread
                 corpus_box['err'] = e
         corpus_thread = threading.Thread(target=corpus_job)
@@ -536,6 +550,35 @@ def run(ctx):
                                      % (it['issue']['k'], m['src'], v_['category'], v_['title'])},
                        signature=sig)
 
+    # the same modules through every input mode (files on disk, InputFromMap, InputFromText, stdin): the reports must agree with
+    # each other and lie inside the text that was PROVIDED
+    MODE_NAMES = {'disk': 'files on disk (WithInputPaths -> rules.InputFromPaths)', 'map': 'rules.InputFromMap',
+                  'text': 'rules.InputFromText', 'stdin': 'standard input (the path "-", as `regal lint -`)'}
+    n_mode = 0      # a change in one input path shows in every rule: the smallest witnesses, at most LSP_MAX_REPORTED
+    for it in shared.collect_mode_issues(summ):
+        if n_mode >= LSP_MAX_REPORTED:
+            break
+        v_, m = it.get('violation') or {}, it['module']
+        rule = '%s/%s' % (v_.get('category'), v_.get('title')) if v_ else it.get('err', '')[:80]
+        sig = {'kind': 'input-mode-%s-%s' % (it['mode'], it['kind'].split(':')[0]), 'key': rule}
+        if json.dumps(sig) in seen:
+            continue
+        seen.add(json.dumps(sig))
+        how = {
+            'missing-in-mode': 'a finding of the in-memory lint of the same text is missing',
+            'extra-in-mode': 'there is a finding that the in-memory lint of the same text does not have',
+            'error': 'the lint fails: %s' % it.get('err', '')[:200],
+        }.get(it['kind'], 'the reported location is not one of the text provided (%s)' % it['kind'])
+        if it['kind'].startswith('not-moved-by-k'):
+            how = 'the findings are not those for k = 0 moved by k rows (%s)' % it['kind'].split(':')[1]
+        n_mode += 1
+        vlib.violation(ctx, {'kind': sig['kind'], 'modules': [m], 'opt': {'modes': True, 'shifts': [it['k']] if it['k'] else []},
+                             'mode': it['mode'], 'k': it['k'], 'violation': v_ or None, 'line': it.get('line'),
+                             'what': '%s with %d blank lines on top, linted through %s: %s%s'
+                                     % (m['src'], it['k'], MODE_NAMES.get(it['mode'], it['mode']), how,
+                                        ' [%s %s:%s:%s]' % (rule, v_.get('file'), v_.get('row'), v_.get('col')) if v_ else '')},
+                       signature=sig)
+
     # ---------------- verdicts of part 1 --------------------------------------------------------------
     for i in sorted(set(r2))[:3]:
         c = keep[i]
@@ -570,7 +613,9 @@ def run(ctx):
                 'linted with all rules enabled (incl. samples of the systematic families: parseable-but-not-compilable modules, comments at '
                 'every token boundary of multi-line terms), each violation checked for bounds/text and for the shift relation with k in '
                 '{1,3,10,100}; lsp_shift: generated workspaces, every file edited to its k-shifted text through the server\'s per-edit '
-                'functions, cached diagnostics compared with the ones before the edit moved by k',
+                'functions, cached diagnostics compared with the ones before the edit moved by k; input modes (corpus.input_mode_pairs): '
+                '(module, k) pairs linted through files on disk / InputFromMap / InputFromText / stdin and compared with each other '
+                'and with the text provided; family "boundary rows": a reportable construct on row 1 and on the last row',
         'helper_cases': len(keep), 'helper_cases_by_helper': hist, 'helper_cases_in_theorem_domain': in_dom,
         'mismatch_model': len(r1), 'mismatch_spec': len(r2), 'unrepresentable': len(unrep),
         'corpus': st,
